@@ -34,6 +34,10 @@ type VerifState struct {
 	TLS        bool   `json:"tls"`
 	LineLimit  int    `json:"lineLimit"`
 	CurLine    int    `json:"curLine"`
+	// state that only a history can reveal otherwise
+	Collector bool `json:"collector"` // an LMTP status collector of a chunked transfer exists
+	TooLong   bool `json:"tooLong"`   // the over-long-line condition is set
+	Closed    bool `json:"closed"`    // the connection was given up
 }
 
 // VerifTracer, when non-nil, receives every hook event. st is nil for events
@@ -49,6 +53,7 @@ func VerifConnState(c *Conn) VerifState {
 	c.locker.Lock()
 	sess := c.session != nil
 	bdat := c.bdatPipe != nil
+	closed := c.closed
 	c.locker.Unlock()
 	_, isTLS := c.conn.(*tls.Conn)
 	return VerifState{
@@ -63,6 +68,9 @@ func VerifConnState(c *Conn) VerifState {
 		Bytes:      c.bytesReceived,
 		TLS:        isTLS,
 		LineLimit:  c.server.MaxLineLength,
+		Collector:  c.bdatStatus != nil,
+		TooLong:    c.lineTooLong,
+		Closed:     closed,
 	}
 }
 
